@@ -31,6 +31,7 @@ RULE = ('case = one accepted generated document and a history of 3..12 (thorough
 ASSUMPTIONS = ['only exceptions escaping the outermost API call are judged',
                'damage to free-standing donor nodes (never part of a document) is recorded as a diagnostic, not a verdict']
 KF_WHOLE_STORE = 'whole-store-child-accepted'
+KF_ANCESTOR = 'ancestor-offered-as-child'
 
 _corpus = None
 _roots = {}
@@ -115,7 +116,7 @@ GARBAGE = ['garbage', '', '"unterminated', '2000-13-45', 'TRUE1', '12x', '#', 'a
 def special_step(col, r, f, text, log):
     """One deliberately invalid call outside the catalog. Returns False to end the history."""
     kind = r.choice(['raw-text', 'raw-text', 'cost-combination', 'cost-attached', 'arithmetic-attached', 'claim-refused', 'claim-refused',
-                     'payee-attached', 'store-foreign-token', 'whole-store-child', 'token-twice-in-batch', 'consumed-node', 'meta-update-attached', 'claim-after-release', 'claim-after-release'])
+                     'payee-attached', 'store-foreign-token', 'whole-store-child', 'token-twice-in-batch', 'consumed-node', 'meta-update-attached', 'claim-after-release', 'claim-after-release', 'ancestor-offered'])
     donors = []
     call = None
     nodes = list(walker.walk(f))
@@ -334,6 +335,31 @@ def special_step(col, r, f, text, log):
         side = r.choice(['raw_spacing_before', 'raw_spacing_after'])
         desc = f'{p_}.{side} = <batch holding one new token twice>'
         call = lambda: setattr(m_, side, batch)
+    elif kind == 'ancestor-offered':
+        # the document itself (it spans its whole store, like every free-standing node) offered to one of its own lists
+        wr = [(p, a, getattr(m, a)) for p, m in walker.tree_models(f) for a, d, k in ops.catalog(type(m)) if k in ('raw_list', 'raw_list_comments')]
+        if not wr:
+            return True
+        p_, a_, w = r.choice(wr)
+        how = r.choice(['append', 'insert', 'extend'])
+        desc = f'{p_}.{a_}.{how}(<the document that holds the list>)'
+        before = [doc_snapshot(f)]
+        wit = {'text': text, 'log': log + [desc]}
+        col.ev()
+        col.count('site:ancestor-offered')
+        col.nontrivial(text, tuple(log), desc)
+        try:
+            w.append(f) if how == 'append' else w.insert(0, f) if how == 'insert' else w.extend([f])
+        except Exception as ex:
+            try:
+                k = diff_kind(before[0], doc_snapshot(f))
+            except Exception:
+                k = 'document-unreadable'
+            if k:
+                col.violation(KF_ANCESTOR, f'{desc} raised {type(ex).__name__}: {ex}; the document changed ({k}): it now prints {common.pr(f)!r:.60}', wit)
+            return False
+        col.violation('ancestor-offered:accepted', f'{desc} was accepted', wit)
+        return False
     else:  # whole-store-child: a child that spans its parent's whole private store looks free to detach()
         es = [m for p, m in nodes if isinstance(m, models.NumberExpr)]
         if not es:
@@ -466,6 +492,20 @@ def _pinned_whole_store(col):
                       f'the node has two parents (the old one prints {common.pr(parent)!r})', {'text': common.pr(f)})
 
 
+def _pinned_ancestor(col):
+    f = common.parser().parse('2000-01-01 *\n    Assets:Foo  1 USD\n', models.File)
+    before = doc_snapshot(f)
+    col.ev()
+    try:
+        f.raw_directives_with_comments.append(f)
+    except Exception as ex:
+        if diff_kind(before, doc_snapshot(f)):
+            col.violation(KF_ANCESTOR, f'file.raw_directives_with_comments.append(file) raised {type(ex).__name__}: {ex}; the document now prints '
+                          f'{common.pr(f)!r}', {'text': '2000-01-01 *\n    Assets:Foo  1 USD\n'})
+        return
+    col.violation('ancestor-offered:accepted', 'file.raw_directives_with_comments.append(file) was accepted', {})
+
+
 def _pinned_regressions(col):
     """Witnesses of the repaired refusal sites: each call must raise and leave the document untouched."""
     P = common.parser()
@@ -499,4 +539,4 @@ def _pinned_regressions(col):
         col.violation('pinned:accepted:' + name.replace(' ', '-'), f'{name}: the call was accepted', {'text': text})
 
 
-PINNED = [(KF_WHOLE_STORE, _pinned_whole_store), ('repaired refusal sites', _pinned_regressions)]
+PINNED = [(KF_WHOLE_STORE, _pinned_whole_store), (KF_ANCESTOR, _pinned_ancestor), ('repaired refusal sites', _pinned_regressions)]
